@@ -46,3 +46,5 @@ def run(ctx):
                 ctx.violation(MODULE, "replay:" + d.field.split("[")[0], args,
                               {"geo": beh["geo"], "actions": [s["act"] for s in steps[:d.step + 1]], "field": d.field,
                                "expected": d.expected, "observed": d.observed})
+    from .frame_t import frame_trace_leg
+    frame_trace_leg(ctx, "C11")
